@@ -25,13 +25,21 @@ func (a *acc) provePush(leaves [][]byte, n, i int, dirty bool) ([]byte, [][]byte
 		panic(err)
 	}
 	var checks []func() bool
-	for _, l := range leaves[:n] {
+	refuseAt := (n*7 + i*3) % n // after this many + 1 leaves, a SetIndex call that must be refused
+	for p, l := range leaves[:n] {
 		if dirty {
 			w, ok := window(l)
 			checks = append(checks, ok)
 			l = w
 		}
 		tr.Push(l)
+		if p == refuseAt {
+			j := uint64((i + 1 + p) % (n + 2)) // any index: other, same, not yet reached, already passed, out of range
+			if err := refusedSetIndex(tr, j); err != nil {
+				a.t.Fatalf("%s/%s n=%d i=%d after %d pushes: %v", a.h.name, a.flav, n, i, p+1, err)
+			}
+			a.count("refused_call_then_continue:SetIndex", fmt.Sprintf("n=%d i=%d after %d pushes SetIndex(%d)", n, i, p+1, j))
+		}
 	}
 	root, ps, idx, nl := tr.Prove()
 	for j, ok := range checks {
@@ -111,7 +119,13 @@ func (a *acc) proveSubTrees(R *ref.MerkleRef, leaves [][]byte, n, i, strategy in
 					a.t.Fatalf("%s/%s %s: PushSubTree(height %d) at position %d accepted although the smallest sub-tree has height %d", a.h.name, a.flav, what, hb, p, hb-1)
 				}
 				a.count("refusal:larger_than_smallest_subtree", fmt.Sprintf("%s p=%d height=%d", what, p, hb))
+				a.count("refused_call_then_continue:PushSubTree", fmt.Sprintf("%s p=%d height=%d (too large)", what, p, hb))
 				obs("refused_pushsubtree", p)
+				if err := refusedSetIndex(tr, uint64(p)); err != nil {
+					a.t.Fatalf("%s/%s %s at position %d: %v", a.h.name, a.flav, what, p, err)
+				}
+				a.count("refused_call_then_continue:SetIndex", fmt.Sprintf("%s p=%d SetIndex(%d)", what, p, p))
+				obs("refused_setindex", p)
 			}
 			if p <= i {
 				// smallest height whose range [p, p+2^h) contains i
@@ -123,6 +137,7 @@ func (a *acc) proveSubTrees(R *ref.MerkleRef, leaves [][]byte, n, i, strategy in
 					a.t.Fatalf("%s/%s %s: PushSubTree(height %d) at position %d accepted although it contains the proof index", a.h.name, a.flav, what, hc, p)
 				}
 				a.count("refusal:contains_proof_index", fmt.Sprintf("%s p=%d height=%d", what, p, hc))
+				a.count("refused_call_then_continue:PushSubTree", fmt.Sprintf("%s p=%d height=%d (contains the proof index)", what, p, hc))
 				obs("refused_pushsubtree", p)
 			}
 		}
@@ -189,13 +204,31 @@ func sweep(t *testing.T, h hashKind, c sweepCfg) {
 		if n%nsh != k {
 			continue
 		}
-		// root of a tree that builds no proof
+		// root of a tree that builds no proof. Half-way, the two calls such a tree refuses: Prove() (documented
+		// usage panic: SetIndex was never called) and SetIndex (documented error: the tree is not empty); the
+		// tree is used further afterwards.
 		tr := merkletree.New(h.lib())
-		for _, l := range leaves[:n] {
+		for p, l := range leaves[:n] {
 			tr.Push(l)
+			if p == n/2 {
+				if o := tryProve(tr); !o.panicked {
+					t.Fatalf("%s/%s n=%d: Prove() on a tree without SetIndex did not panic as documented: %v", h.name, c.flavour, n, o)
+				}
+				a.count("refused_call_then_continue:Prove", fmt.Sprintf("n=%d after %d pushes", n, p+1))
+				if err := refusedSetIndex(tr, uint64(p)); err != nil {
+					t.Fatalf("%s/%s n=%d plain tree after %d pushes: %v", h.name, c.flavour, n, p+1, err)
+				}
+				a.count("refused_call_then_continue:SetIndex", fmt.Sprintf("n=%d plain tree after %d pushes", n, p+1))
+				if got := tr.Root(); !bytes.Equal(got, R.Root(p+1)) {
+					t.Fatalf("%s/%s n=%d: Root() after the refused calls = %x, MTH of %d leaves = %x", h.name, c.flavour, n, got, p+1, R.Root(p+1))
+				}
+			}
 		}
 		if got := tr.Root(); !bytes.Equal(got, R.Root(n)) {
 			t.Fatalf("%s/%s n=%d: Root() = %x, MTH = %x", h.name, c.flavour, n, got, R.Root(n))
+		}
+		if o := tryProve(tr); !o.panicked {
+			t.Fatalf("%s/%s n=%d: Prove() on a tree without (successful) SetIndex did not panic as documented: %v", h.name, c.flavour, n, o)
 		}
 		for i := 0; i < n; i++ {
 			// dirty caller buffers for every (n,i) up to 130 leaves, one (n,i) in eight above
